@@ -420,6 +420,26 @@ def context_histories(ck, rnd, n):
             acc.nt(["ctx", h, step])
             if seen["during"] != filt:
                 acc.violation(f"context not-visible-during {kind} saw={'previous-filter' if str(seen['during']).startswith('filter-') else str(seen['during'])[:20]}", f"history {history[-4:]}: during step {step} ({kind}) the helper saw filter {seen['during']!r}, expected {filt!r}", {"fn": "context", "args": [kind], "kind": "history"})
+            if step % 5 == 4:
+                # the runner's filter= argument inside an enclosing context of ANOTHER filter: the evaluation sees its own filter
+                outer = f"outer-{h}-{step}"
+                inner = f"inner-{h}-{step}"
+                seen["during"] = "<probe not called>"
+                try:
+                    with lib.C7NContext(filter=outer):
+                        progs["success"].evaluate({"x": ck.ct.IntType(1)}, filter=inner)
+                except Exception:
+                    pass
+                acc.hook("nested-context")
+                acc.evaluations += 1
+                acc.cell("context", "nested", "saw-own" if seen["during"] == inner else "saw-other")
+                if seen["during"] != inner:
+                    acc.violation(f"context not-visible-during nested-in-another-context saw={'enclosing-filter' if seen['during'] == outer else str(seen['during'])[:20]}", f"evaluate(..., filter={inner!r}) inside `with C7NContext(filter={outer!r})`: the helper saw filter {seen['during']!r}", {"fn": "context", "args": ["nested"], "kind": "history"})
+                after = lib.C7N
+                if after is not None:
+                    acc.violation("context still-set-after nested-in-another-context outcome=value", f"after leaving both contexts c7nlib.C7N is still {after!r:.60}", {"fn": "context", "args": ["nested"], "kind": "history"})
+                    lib.C7N = None
+                after = None
             if after is not None:
                 acc.violation(f"context still-set-after {kind} outcome={outcome}", f"history {history[-4:]}: after step {step} ({kind} -> {outcome}) c7nlib.C7N is still {after!r:.60}", {"fn": "context", "args": [kind], "kind": "history"})
                 lib.C7N = None  # restore so that the rest of the history is judged on its own
